@@ -113,6 +113,18 @@ func main() {
 		base = strings.TrimSuffix(base, "_test")
 		ov.Replace[filepath.Join(*repo, "zz_verif_"+base+"_test.go")] = h
 	}
+	// generated accessor: the htpasswd validator's reload method, looked up in the current source
+	{
+		dst := filepath.Join(gen, "basic_reload_gen.go")
+		must(os.WriteFile(dst, genReloadAccessor(filepath.Join(*repo, "pkg/authentication/basic")), 0o644))
+		ov.Replace[filepath.Join(*repo, "pkg/authentication/basic", "zz_verif_reload_gen.go")] = dst
+	}
+	// generated accessors into package main (unexported members of OAuthProxy the harness needs)
+	{
+		dst := filepath.Join(gen, "main_access_gen_test.go")
+		must(os.WriteFile(dst, genMainAccessors(*repo), 0o644))
+		ov.Replace[filepath.Join(*repo, "zz_verif_access_gen_test.go")] = dst
+	}
 	// export helpers into other packages: harness/export/<pkg path with __>/*.go
 	efiles, _ := filepath.Glob(filepath.Join(*verif, "harness", "export", "*", "*.go"))
 	for _, e := range efiles {
@@ -216,6 +228,190 @@ func main() {
 	ovPath := filepath.Join(*out, "overlay.json")
 	must(os.WriteFile(ovPath, data, 0o644))
 	fmt.Println(ovPath)
+}
+
+// genReloadAccessor writes VerifReload for package basic: it looks for a method with one string
+// parameter and one error result on a type that also has Validate(string, string) bool (the
+// validator); among several, one whose name contains "load" wins. Without a candidate the accessor
+// reports an error at run time (C20 then says so) instead of breaking the build of every check.
+func genReloadAccessor(dir string) []byte {
+	type meth struct {
+		recv, name string
+		ptr        bool
+	}
+	var cands []meth
+	validators := map[string]bool{}
+	files, _ := filepath.Glob(filepath.Join(dir, "*.go"))
+	for _, fn := range files {
+		if strings.HasSuffix(fn, "_test.go") {
+			continue
+		}
+		fset := token.NewFileSet()
+		f, err := parser.ParseFile(fset, fn, nil, 0)
+		if err != nil {
+			continue
+		}
+		for _, d := range f.Decls {
+			fd, ok := d.(*ast.FuncDecl)
+			if !ok || fd.Recv == nil || len(fd.Recv.List) != 1 {
+				continue
+			}
+			rt := fd.Recv.List[0].Type
+			ptr := false
+			if st, ok := rt.(*ast.StarExpr); ok {
+				rt, ptr = st.X, true
+			}
+			id, ok := rt.(*ast.Ident)
+			if !ok {
+				continue
+			}
+			isStr := func(e ast.Expr) bool { i, ok := e.(*ast.Ident); return ok && i.Name == "string" }
+			np, nr := 0, 0
+			var ptypes, rtypes []ast.Expr
+			if fd.Type.Params != nil {
+				for _, p := range fd.Type.Params.List {
+					k := len(p.Names)
+					if k == 0 {
+						k = 1
+					}
+					for j := 0; j < k; j++ {
+						ptypes = append(ptypes, p.Type)
+					}
+				}
+			}
+			if fd.Type.Results != nil {
+				for _, p := range fd.Type.Results.List {
+					k := len(p.Names)
+					if k == 0 {
+						k = 1
+					}
+					for j := 0; j < k; j++ {
+						rtypes = append(rtypes, p.Type)
+					}
+				}
+			}
+			np, nr = len(ptypes), len(rtypes)
+			if fd.Name.Name == "Validate" && np == 2 && nr == 1 && isStr(ptypes[0]) && isStr(ptypes[1]) {
+				validators[id.Name] = true
+			}
+			if np == 1 && nr == 1 && isStr(ptypes[0]) {
+				if ri, ok := rtypes[0].(*ast.Ident); ok && ri.Name == "error" {
+					cands = append(cands, meth{recv: id.Name, name: fd.Name.Name, ptr: ptr})
+				}
+			}
+		}
+	}
+	var best *meth
+	for i := range cands {
+		c := &cands[i]
+		if !validators[c.recv] {
+			continue
+		}
+		if best == nil || (strings.Contains(strings.ToLower(c.name), "load") && !strings.Contains(strings.ToLower(best.name), "load")) {
+			best = c
+		}
+	}
+	var b bytes.Buffer
+	b.WriteString("//go:build verif\n\npackage basic\n\n")
+	if best == nil {
+		b.WriteString("import \"errors\"\n\n// VerifReload: no reload method was found in the package's source.\nfunc VerifReload(v Validator, path string) error {\n\treturn errors.New(\"verif: no method (string) error on the validator type found in pkg/authentication/basic\")\n}\n")
+		return b.Bytes()
+	}
+	star := ""
+	if best.ptr {
+		star = "*"
+	}
+	fmt.Fprintf(&b, "import \"fmt\"\n\n// VerifReload calls the validator's own reload (generated: type %s, method %s).\nfunc VerifReload(v Validator, path string) error {\n\tx, ok := v.(%s%s)\n\tif !ok {\n\t\treturn fmt.Errorf(\"verif: validator is %%T, not %s%s\", v)\n\t}\n\treturn x.%s(path)\n}\n", best.recv, best.name, star, best.recv, star, best.recv, best.name)
+	return b.Bytes()
+}
+
+// genMainAccessors writes the accessors the harness uses instead of naming unexported members of
+// package main, after looking them up in the current source: a rename then changes the generated
+// code, a removal turns the accessor into one that reports "not available" (the checks that need it
+// say so) — never into a build failure of every check.
+func genMainAccessors(repo string) []byte {
+	trusted := "" // method (*OAuthProxy) X(*http.Request) bool, name contains "trusted"
+	haveChainFn, haveChainField, haveMux := false, false, false
+	files, _ := filepath.Glob(filepath.Join(repo, "*.go"))
+	for _, fn := range files {
+		if strings.HasSuffix(fn, "_test.go") {
+			continue
+		}
+		fset := token.NewFileSet()
+		f, err := parser.ParseFile(fset, fn, nil, 0)
+		if err != nil {
+			continue
+		}
+		for _, d := range f.Decls {
+			switch d := d.(type) {
+			case *ast.FuncDecl:
+				if d.Recv == nil {
+					if d.Name.Name == "buildPreAuthChain" && d.Type.Params != nil && d.Type.Params.NumFields() == 2 && d.Type.Results != nil && d.Type.Results.NumFields() == 2 {
+						haveChainFn = true
+					}
+					continue
+				}
+				if len(d.Recv.List) != 1 {
+					continue
+				}
+				st, ok := d.Recv.List[0].Type.(*ast.StarExpr)
+				if !ok {
+					continue
+				}
+				if id, ok := st.X.(*ast.Ident); !ok || id.Name != "OAuthProxy" {
+					continue
+				}
+				np, nr := 0, 0
+				if d.Type.Params != nil {
+					np = d.Type.Params.NumFields()
+				}
+				if d.Type.Results != nil {
+					nr = d.Type.Results.NumFields()
+				}
+				if np == 1 && nr == 1 && strings.Contains(strings.ToLower(d.Name.Name), "trusted") {
+					pt, _ := d.Type.Params.List[0].Type.(*ast.StarExpr)
+					rt, _ := d.Type.Results.List[0].Type.(*ast.Ident)
+					if pt != nil && rt != nil && rt.Name == "bool" {
+						if se, ok := pt.X.(*ast.SelectorExpr); ok && se.Sel.Name == "Request" {
+							trusted = d.Name.Name
+						}
+					}
+				}
+				if d.Name.Name == "buildServeMux" && np == 1 && nr == 0 {
+					haveMux = true
+				}
+			case *ast.GenDecl:
+				for _, sp := range d.Specs {
+					ts, ok := sp.(*ast.TypeSpec)
+					if !ok || ts.Name.Name != "OAuthProxy" {
+						continue
+					}
+					if stt, ok := ts.Type.(*ast.StructType); ok {
+						for _, fl := range stt.Fields.List {
+							for _, n := range fl.Names {
+								if n.Name == "preAuthChain" {
+									haveChainField = true
+								}
+							}
+						}
+					}
+				}
+			}
+		}
+	}
+	var b bytes.Buffer
+	b.WriteString("//go:build verif\n\npackage main\n\nimport (\n\t\"context\"\n\t\"errors\"\n\t\"net/http\"\n\t\"net/http/httptest\"\n\n\t\"github.com/oauth2-proxy/oauth2-proxy/v7/pkg/apis/options\"\n)\n\nvar _ = errors.New\nvar _ *options.Options\nvar _ = context.Background\nvar _ = httptest.NewRecorder\n\n")
+	if trusted != "" {
+		fmt.Fprintf(&b, "// verifIsTrustedIP: generated from method %s.\nfunc verifIsTrustedIP(p *OAuthProxy, r *http.Request) bool { return p.%s(r) }\n\nconst verifHasIsTrustedIP = true\n\n", trusted, trusted)
+	} else {
+		b.WriteString("// verifIsTrustedIP: no method (*OAuthProxy) <..trusted..>(*http.Request) bool in the source: the\n// decision is read off the handler (an unauthenticated request for an upstream path is served iff exempt).\nfunc verifIsTrustedIP(p *OAuthProxy, r *http.Request) bool {\n\trec := httptest.NewRecorder()\n\tp.ServeHTTP(rec, r.Clone(context.Background()))\n\treturn rec.Code != http.StatusUnauthorized && rec.Code != http.StatusForbidden && rec.Code != http.StatusFound\n}\n\nconst verifHasIsTrustedIP = false\n\n")
+	}
+	if haveChainFn && haveChainField && haveMux {
+		b.WriteString("// verifRebuildPreAuthChain rebuilds the pre-auth chain and the router from modified options.\nfunc verifRebuildPreAuthChain(p *OAuthProxy, o *options.Options) error {\n\tchain, err := buildPreAuthChain(o, verifSessionStore(p))\n\tif err != nil {\n\t\treturn err\n\t}\n\tp.preAuthChain = chain\n\tp.buildServeMux(o.ProxyPrefix)\n\treturn nil\n}\n")
+	} else {
+		b.WriteString("// verifRebuildPreAuthChain: buildPreAuthChain / preAuthChain / buildServeMux not found in the source.\nfunc verifRebuildPreAuthChain(p *OAuthProxy, o *options.Options) error {\n\treturn errors.New(\"verif: the pre-auth chain cannot be rebuilt on this tree (members renamed)\")\n}\n")
+	}
+	return b.Bytes()
 }
 
 // importsAny reports whether the Go file imports one of the given paths.
